@@ -9,11 +9,13 @@ MANIFEST = dict(
   text=("Theorems (Props/C09.lean) for every finite history of valid CachedMatrix operations, every size and capacity: "
         "cached/returned/storage-copied entries equal the base matrix under the current permutation, size accounting, "
         "capacity bound, LRU list = cached lines, two most recent rows survive a third fetch iff capacity allows "
-        "(with a decide-checked witness for the converse). The model (Model/Cache.lean) is tied to the real "
+        "(with a decide-checked witness for the converse); wrapper matrices (regularised, modified, precomputed, 2x2-block, difference, partly precomputed) "
+        "equal the direct kernel formula at the permuted original indices after any flip history. The model (Model/Cache.lean) is tied to the real "
         "LRUCache/CachedMatrix by an exact line-by-line correspondence over random histories (double and float caches) "
         "under ASan/UBSan, plus an independent in-harness property oracle."),
   note=TRUST + "memory safety of the real object code is runtime evidence (ASan/UBSan over the generated histories), the theorem is about the model; "
-       "wrapper matrices (precomputed, regularised, modified ...) not yet covered.",
+       "wrapper matrices: Kernel/Regularized/Modified/Precomputed/Block2x2/Difference/PartlyPrecomputed are modelled and proved for all flip histories over an arbitrary kernel function; "
+       "tied on integer points with the linear kernel; GaussianKernelMatrix and ExampleModifiedKernelMatrix are not modelled; matrix() is only exercised before the first flip.",
   technique="Lean 4 invariant proof by induction over operation histories + differential correspondence with the C++ (ASan/UBSan)",
   design="§6 C09")
 
@@ -70,8 +72,55 @@ def gen_lru_case(r, maxlen):
     return ops
 
 
+def gen_wrapper_case(r, maxlen):
+    """wrapper matrices over integer points + linear kernel (exact)"""
+    n = r.choice([1, 2, 3, 4, 5, 7])
+    d = r.choice([1, 2, 3])
+    bs = r.range(1, n + 1)
+    xs = [r.range(0, 16) for _ in range(n * d)]          # coordinate = value - 8
+    labels = [r.below(3) for _ in range(n)]
+    diag = [r.below(5) for _ in range(n)]
+    ops = ["wdata %d %d %d %s" % (n, d, bs, " ".join(map(str, xs + labels + diag)))]
+    ty = r.choice(["kernel", "reg", "mod", "pre", "pre", "block", "diff", "partly"])
+    size = n
+    if ty == "mod":
+        ops.append(f"wmk mod {r.range(0, 3)} {r.range(0, 3)}")
+    elif ty == "pre":
+        if r.chance(1, 12) and n >= 2:
+            # K2: precomputation of an already flipped base matrix
+            i = r.below(n); j = (i + 1 + r.below(n - 1)) % n
+            ops.append(f"wmk pre {i} {j}")
+        else:
+            ops.append("wmk pre")                 # precomputed at construction (no prior flips)
+    elif ty == "diff":
+        m = r.range(1, 5); size = m
+        ops.append("wmk diff " + " ".join(str(r.below(n)) for _ in range(2 * m)))
+    elif ty == "partly":
+        ops.append(f"wmk partly {r.range(n * 8, n * 8 * (n + 1))}")
+    else:
+        ops.append("wmk " + ty)
+        if ty == "block": size = 2 * n
+    flipped = False
+    for _ in range(r.range(1, maxlen)):
+        x = r.below(100)
+        if x < 35 and ty != "partly":
+            ops.append(f"wflip {r.below(size)} {r.below(size)}"); flipped = True
+        elif x < 60:
+            ops.append(f"wentry {r.below(size)} {r.below(size)}")
+        elif x < 90:
+            e = r.range(0, size); st = r.range(0, e)
+            ops.append(f"wrow {r.below(size)} {st} {e}")
+        elif not flipped and ty in ("kernel", "reg", "mod", "block", "diff"):
+            # matrix() of the KernelMatrix-based wrappers ignores flips by construction
+            # (it evaluates the dataset in its original order): only asked before any flip
+            ops.append("wmatrix")
+    return ops
+
+
 def classify(ops, res):
     kinds = sorted({o.split()[0] for o in ops[1:]})
+    if any(o.startswith("wmk pre ") for o in ops) and not res.crash:
+        return "K2:precomputed-after-flips", f"PrecomputedMatrix built from a flipped KernelMatrix holds the unflipped matrix; ops {ops}"
     if res.crash:
         m = re.search(r"ERROR: AddressSanitizer: (\S+)|runtime error: ([^\n]*)", res.stderr)
         tag = (m.group(1) or m.group(2)) if m else "crash"
@@ -100,7 +149,7 @@ LAKE_TARGETS = ["SharkVerif.Props.C09", "drv_c09"]
 
 
 def build(ctx):
-    return ctx.harness("c09", ["c09.cpp"])
+    return ctx.harness("c09", ["c09.cpp"]), ctx.harness("c09b", ["c09b.cpp"])
 
 
 def run(ctx):
@@ -112,13 +161,14 @@ def run(ctx):
     ctx.prove(["SharkVerif.Props.C09"])
     if not ctx.quick:
         ctx.leanchecker(["SharkVerif.Props.C09"])
-    exe = build(ctx)
+    exe, exeb = build(ctx)
     drv = ctx.driver("drv_c09")
-    if not exe or not drv:
+    if not exe or not exeb or not drv:
         return
     ncm, nlru, maxlen = (150, 100, 60) if ctx.quick else (1500, 800, 400)
-    cases = load_corpus()
-    ctx.cov["corpus_cases"] = len(cases)
+    corpus = load_corpus()
+    cases = [c for c in corpus if not c[0].startswith("w")]
+    ctx.cov["corpus_cases"] = len(corpus)
     r = ctx.rng.fork("c09")
     cases += [gen_cm_case(r, maxlen) for _ in range(ncm)]
     cases += [gen_lru_case(r, maxlen) for _ in range(nlru)]
@@ -131,13 +181,25 @@ def run(ctx):
     ctx.sample({"ops": cases[len(cases) // 2][:12]})
     for ty in ("double", "float"):
         core.correspond(ctx, f"K-C09[{ty}]", cases, [exe, ty], [drv], classify)
+    nw = 150 if ctx.quick else 1500
+    wcases = [c for c in corpus if c[0].startswith("w")]
+    wcases += [gen_wrapper_case(r, 25 if ctx.quick else 80) for _ in range(nw)]
+    for c in wcases:
+        ctx.hist("wrapper_types", c[1].split()[1])
+        for o in c: ctx.hist("op_mix", o.split()[0])
+    ctx.cov["evaluations"] += len(wcases)
+    ctx.cov["distinct_nontrivial"] += len({"\n".join(c) for c in wcases if any(o.startswith("wflip") for o in c)})
+    ctx.sample({"ops": wcases[0][:8]})
+    for ty in ("double", "float"):
+        core.correspond(ctx, f"K-C09-wrappers[{ty}]", wcases, [exeb, ty], [drv], classify, keep_prefix=2)
     ctx.sample({"theorems": ["cache_entries_true", "returned_row_true", "storage_row_true", "size_accounting",
                              "two_recent_rows_valid", "two_recent_rows_evicted_when_too_small"]})
 
 
 def replay(ctx, rep):
-    exe = ctx.harness("c09", ["c09.cpp"]); drv = ctx.driver("drv_c09")
-    cmd = rep.get("harness_cmd", [exe, "double"]); cmd[0] = exe
+    exe, exeb = build(ctx); drv = ctx.driver("drv_c09")
+    cmd = rep.get("harness_cmd", [exe, "double"])
+    cmd[0] = exeb if any(o.startswith("w") for o in rep["ops"]) else exe
     res = core.run_case(ctx, cmd, [drv], rep["ops"])
     print("\n".join(f"impl : {a}\nmodel: {b}" for a, b in zip(res.impl, res.model)))
     print("stderr:", res.stderr[-2000:])
